@@ -3,7 +3,8 @@
 Spec: specs/lang/LangStatic.tla (Resolve: the definition of lexical resolution) + LangDyn.tla
 (static-link environments).  TLC enumerates every program of the `scope` profile (LangGen under
 MCGenScope: two names, one function, nested blocks, same-block re-make, shadowing, forward calls,
-captured reads and writes) and of the `fn` profile (two one-parameter functions, recursion with
+captured reads and writes, literals with two placeholders), of the `deaddef` profile (definitions after a
+`return`, still visible throughout their block) and of the `fn` profile (two one-parameter functions, recursion with
 several live activations) and runs each on the reference machine.  Binding (R): each program runs
 through the real pipeline with event hooks on; the complete event trace - every assignment
 identified by the DECLARATION SITE it lands in, every call by the definition it reaches, and the
@@ -14,9 +15,11 @@ import langengine as le
 
 
 def profiles(tier):
+    dead = ("MCGenDeadDef", {"MAXSTMTS": 5, "MAXDEPTH": 3, "EVENTS": 2})
+    place = ("MCGenPlace", {"MAXSTMTS": 5, "MAXDEPTH": 3, "EVENTS": 2})
     if tier == "quick":
-        return [("MCGenScope", {"MAXSTMTS": 4, "MAXDEPTH": 3, "EVENTS": 2}), ("MCGenFn", {"MAXSTMTS": 4, "MAXDEPTH": 3, "EVENTS": 2})]
-    return [("MCGenScope", {"MAXSTMTS": 5, "MAXDEPTH": 3, "EVENTS": 2}), ("MCGenFn", {"MAXSTMTS": 5, "MAXDEPTH": 3, "EVENTS": 2})]
+        return [("MCGenScope", {"MAXSTMTS": 4, "MAXDEPTH": 3, "EVENTS": 2}), ("MCGenFn", {"MAXSTMTS": 4, "MAXDEPTH": 3, "EVENTS": 2}), dead, place]
+    return [("MCGenScope", {"MAXSTMTS": 5, "MAXDEPTH": 3, "EVENTS": 2}), ("MCGenFn", {"MAXSTMTS": 5, "MAXDEPTH": 3, "EVENTS": 2}), dead, place]
 
 
 def run(tier):
